@@ -7,17 +7,17 @@ HERE = os.path.dirname(os.path.abspath(__file__))
 TECH = "bounded model checking of the real code: Kani 0.68 #[kani::proof] harnesses over kani::any() inputs, decided by CBMC 6.11 + CaDiCaL (SAT); unwinding assertions on; counterexamples replayed natively"
 
 CLAIMED = {
-    "C04": ("index kernel: VArray::abs_index / get_element / get_dimension_bounds and allocation::to_dimensions, decided for every index tuple (any i16) and every shape within the bound (1-3 dimensions, any i8 lower bound, small extents): in-range iff inside the declared box, flat mapping injective and < len, LBOUND/UBOUND = declared",
-            "the element store, records, STRING*n and by-reference routes are outside the claim (DESIGN 4/C04)", "4/C04"),
+    "C04": ("index kernel: VArray::abs_index / get_element / get_dimension_bounds and allocation::to_dimensions, decided for every index tuple (any i16) and every shape within the bound (1-3 dimensions, any i8 lower bound, small extents): in-range iff inside the declared box, flat mapping injective and < len, LBOUND/UBOUND = declared; store-then-load locality on INTEGER arrays of small fixed shapes (any write tuple, any read tuple, any contents)",
+            "records, STRING*n (fix_length and the FixLength emission of the generator), element conversion and by-reference routes are outside the claim (DESIGN 4/C04)", "4/C04"),
     "C05": ("resume-address kernel (NearestStatementFinder: RESUME = greatest mark <= failing address, RESUME NEXT = least mark > it) for every non-decreasing table within the bound and every failing address; RuntimeError::get_code total over the whole enum with the QBasic codes the statement names; error conversions",
             "the GOSUB stack, handler dispatch and context handling inside Interpreter::interpret are outside (VM runs are not symbolically executable here)", "4/C05"),
     "C06": ("full machine width, one instance per (operation, tag pair): CastVariant::cast for all 16 numeric conversions (valid result within 0.5 / nearest, Overflow only when the rounded value does not fit), closure of Variant::{plus,minus,multiply,divide,modulo,negate,unary_not} (valid value, Overflow or DivisionByZero; integer results exact), static result type = dynamic tag",
             "that every route into a variable passes through these functions is outside; operands assumed valid (inductive step)", "4/C06"),
     "C08": ("no panic / overflow / out-of-range index for any argument of the admissible static type in the kernels the run time relies on: RuntimeError::get_code total; do_mid, do_instr, val, variant_casts conversions, NearestStatementFinder",
             "that the linter rules out what the run time assumes (the larger half of the statement) is outside: linter and generator cannot be executed symbolically", "4/C08"),
-    "C09": ("identity primitives: cmp_str equal iff equal after ASCII case folding, antisymmetric; Eq/Hash agreement of CaseInsensitiveString (recording hasher); keyword lemma cmp_str(p,s) = cmp_str(p,fold(s)) plus sortedness of the keyword table; DEFtype table ignores case; CR, LF and CRLF advance the row once",
+    "C09": ("identity primitives, for names of every length up to the tokenizer's 40-character limit: cmp_str equal iff equal after ASCII case folding, antisymmetric; Eq/Hash agreement of CaseInsensitiveString (recording hasher); keyword lemma cmp_str(p,s) = cmp_str(p,fold(s)) plus sortedness of the keyword table; DEFtype table ignores case; CR, LF and CRLF advance the row once",
             "blanks, colons, comments and program-level invariance need the parser: outside", "4/C09"),
-    "C10": ("decision tables: should_flip_binary for all 169 operator pairs against the standard precedence ranks, should_flip_unary for all 26; &H/&O digit strings of fixed length with symbolic digits denote their 16/32-bit two's complement value",
+    "C10": ("decision tables: should_flip_binary for all 169 operator pairs against the standard precedence ranks, should_flip_unary for all 26; &H/&O digit strings of fixed length with symbolic digits denote their 16/32-bit two's complement value; a unary minus directly before a literal gives the exact negated value in the narrowest type, for every INTEGER/LONG/SINGLE/DOUBLE literal value",
             "the rotation driver (binary_expr recursion over the Expression tree) and decimal literals are outside (undecided in every formulation)", "4/C10"),
     "C11": ("position arithmetic: create_row_col_view is the row/column reference for every text over {x,CR,LF} within the bound; StringView::position inside the text or at its end; error envelopes carry [error position, call sites innermost first] and drain the VM stack",
             "that positions survive parser -> linter -> generator is outside", "4/C11"),
